@@ -88,6 +88,19 @@ PROPS = {
         "exhaustive": False,
         "label": "full",
     },
+    "C08": {
+        "components": ["hostile", "ssession", "daemonreq"],
+        "trusted_base": [KERNEL, EXTRACT, HARNESSTB, GEN, MD4NOTE, FSNOTE,
+                         "translator tools/gen/aborts.go: which calls count as process-ending (panic, os.Exit, log.Fatal*, log.Panic*, runtime.Goexit, syscall.Exit) and which directories are library code (everything except cmd/, integration/, verifhook/ and the test helper packages)",
+                         "modelled, not verified: Go runtime panics on slice / index / allocation errors are represented only where the model has a crash value (sender search loop, demultiplexer buffer); other decoders are covered by the correspondence components of C15 / C17 / C03 (malformed streams) and by the survival oracle here"],
+        "assumptions": [
+            "stalled peers and declared multi-gigabyte sizes are outside the property: count-like fields are mutated to values below 2^20 (or negative); a session found busy allocating / filling a literal-token buffer after the peer closed, or a process that died with an out-of-memory error, is counted as out of scope, not as a violation",
+            "the hostile peer writes its whole (mutated) stream and closes; the target must return within 4-5 s after the close",
+        ],
+        "rule": "scripted valid sessions in four roles (daemon serving a pull, daemon receiving an upload with --delete into a subdirectory, library client receiving from a server, library client sending to a server), split into labelled fields: greeting, module line, every argument line, filter-list lengths and rule text, file indices, the four checksum-header fields, block checksums, file-list flags / name lengths / names / sizes / times / modes / link lengths and targets, the I/O-error word, token lengths and data, whole-file checksums, phase markers, multiplex headers, statistics; each field mutated to boundary integers (-1, -2, -2^31, 0, 1, v-1, v+1, 2^20-1 or 2^31-1), every single-bit flip of flag bytes, emptied / halved / doubled / zeroed / 0xff / traversal / 4 kB names and data, garbled / over-long / NUL-containing lines, bad multiplex tags and lengths; truncation of the stream at byte offsets (every offset in the thorough tier); random noise; every option of the parser's table as an extra argument line (with =1, =help, =-5 for options taking a value). oracle: the worker process neither dies nor hangs, the session ends, and the same daemon then lists and serves a canonical request; unmutated control sessions must be accepted. plus the request-loop and request-dispatch correspondences. quick tier: every sixth mutation (rotating with the seed), every 17th offset",
+        "exhaustive": False,
+        "label": "partial: crash-freedom is a theorem for the sender's request loop, the demultiplexer, header / name-length validation, rule rejection and the abort-site inventory; for the remaining decoders it rests on the malformed-stream correspondences and the survival oracle",
+    },
     "C10": {
         "components": ["genops", "recvmeta", "ssession", "dryrun"],
         "trusted_base": [KERNEL, EXTRACT, HARNESSTB, GEN, MD4NOTE, FSNOTE,
